@@ -19,6 +19,7 @@ import c04
 import exptree as X
 
 LEVEL = "proof"
+MAXMID = 3          # rebuilds of the block in the middle of a history (after failed decodes), per case
 
 
 class Timeout(Exception):
@@ -91,8 +92,9 @@ def evaluate(cpu, E, mapper, m, states, regs):
     return out
 
 
-def decode_all(dis, blobs):
-    """plain successive calls of the disassembler: whatever state a call leaves behind is part of the history"""
+def decode_all(dis, blobs, on_fail=None):
+    """plain successive calls of the disassembler: whatever state a call leaves behind is part of the history.
+    on_fail(bytes) is called right after a call that gave no instruction (None or an exception)."""
     out = []
     for b in blobs:
         try:
@@ -101,6 +103,38 @@ def decode_all(dis, blobs):
             i = None
         if i is not None:
             out.append(i)
+        elif on_fail is not None:
+            on_fail(b)
+    return out
+
+
+def undecodable(rng, specs, pf, e, ml, n):
+    """n byte strings most of which are not an instruction, the way a linear sweep meets them at the end of a buffer or in
+    data: the bytes of a specification (behind 1-2 prefix bytes of the ISA where it has prefix specifications, in most
+    cases) cut short at any length by the end of the buffer, lone prefix bytes, or complete bytes in which one byte behind
+    the first was replaced (operand forms the specification's hook refuses).  Whether a given string really fails is only
+    known once it is decoded in the history - nothing is decoded here."""
+    out = []
+    for _ in range(n):
+        b = c04.spec_bytes(rng, rng.choice(specs), e, ml)
+        tail = bytes(rng.getrandbits(8) for _ in range(rng.randrange(0, ml + 1)))
+        p = b""
+        if pf and rng.random() < 0.75:
+            p = b"".join(c04.spec_bytes(rng, rng.choice(pf), e, ml) for _ in range(rng.choice([1, 1, 1, 2, 3])))
+        c = rng.random()
+        if c < 0.15 and p:
+            g = p                                                       # prefix bytes and nothing else
+        elif c < 0.45:
+            g = (p + b)[:rng.randrange(1, len(p + b) + 1)]               # cut inside (or right after) the specified bytes
+        elif c < 0.75:
+            g = p + b + tail
+            g = g[:rng.randrange(len(p) + 1, len(g) + 1)]               # cut inside the operand bytes that follow
+        else:
+            g = bytearray(p + b + tail)
+            if len(g) > len(p) + 1:
+                g[rng.randrange(len(p) + 1, min(len(g), len(p) + len(b) + 1))] = rng.choice([0xC0, 0xFF, 0x00, rng.getrandbits(8), 0xC0 | rng.getrandbits(6)])
+            g = bytes(g)
+        out.append(g)
     return out
 
 
@@ -143,6 +177,13 @@ def case(args):
                 hblobs.append(bytes([rng.choice(c04.X86_PREFIXES)]) + rng.choice([b"\x06", b"\xd6", b"\x82", b"\xf1", b"\x27"])[:1] + bytes(rng.getrandbits(8) for _ in range(3)))
             elif rng.random() < 0.5:
                 hblobs.append(hblobs.pop(rng.randrange(len(hblobs))))      # the history may end on any of them
+            # failed decodes of every ISA (truncated / refused instruction bytes, behind the ISA's own prefix bytes where it has
+            # prefix specifications and without them), anywhere in the history and, in half of the cases, as its last call
+            pf = [s for s in specs if s.pfx is True]
+            for g in undecodable(rng, specs, pf, e, ml, rng.randrange(2, 7)):
+                hblobs.insert(rng.randrange(0, len(hblobs) + 1), g)
+            if rng.random() < 0.5:
+                hblobs += undecodable(rng, specs, pf, e, ml, 1)
             states = []
             for _ in range(2):
                 regvals = []
@@ -173,7 +214,33 @@ def case(args):
             # ---- history of unrelated work, monitored step by step
             culprit = None
             gprev = g1
-            H = decode_all(dis, hblobs)
+
+            def rebuild(sts=states):
+                """the block decoded, mapped and evaluated again by the same process-global disassembler"""
+                Bn = decode_all(dis, bblobs)
+                try:
+                    mn = mapper()
+                    for i in Bn:
+                        i(mn)
+                    return evaluate(cpu, E, mapper, mn, sts, regs)
+                except Exception as x:
+                    return [("rebuild raised", type(x).__name__)]
+
+            # every prefix of a history is a history: right after some of the calls that gave no instruction the block is built
+            # again (at most MAXMID times per case) and must evaluate like the block built first
+            mid = {"n": 0, "fails": 0, "bad": None}
+
+            def after_failed_decode(b):
+                mid["fails"] += 1
+                if mid["bad"] is None and mid["n"] < MAXMID and rng.random() < 0.6:
+                    mid["n"] += 1
+                    vm = rebuild(states[:1])            # (one state: what a decoder leaves behind shows in every state)
+                    if vm != v0[:1]:
+                        mid["bad"] = (bytes(b).hex(), vm)
+
+            H = decode_all(dis, hblobs, on_fail=after_failed_decode)
+            res["failed_decodes"] = mid["fails"]
+            res["mid_rebuilds"] = mid["n"]
             hm = mapper()
             derived = None
             for hi, i in enumerate(H):
@@ -202,14 +269,7 @@ def case(args):
             res["nontrivial"] = len(H) >= 3
             # ---- (a) the old map, (b) the map rebuilt after the history
             v0b = evaluate(cpu, E, mapper, m0, states, regs)
-            B1 = decode_all(dis, bblobs)
-            try:
-                m1 = mapper()
-                for i in B1:
-                    i(m1)
-                v1 = evaluate(cpu, E, mapper, m1, states, regs)
-            except Exception as x:
-                v1 = [("rebuild raised", type(x).__name__)]
+            v1 = rebuild()
             # (c) the instruction objects decoded first, executed once more (their first execution is history too)
             try:
                 m2 = mapper()
@@ -226,6 +286,9 @@ def case(args):
             what = None
             if v0b != v0:
                 what = "old-map"
+            elif mid["bad"] is not None:
+                what = "rebuilt-map-after-failed-decode-of-" + mid["bad"][0]
+                v1 = mid["bad"][1]
             elif v1 != v0:
                 what = "rebuilt-map"
             elif v2 != v0:
@@ -237,6 +300,8 @@ def case(args):
                 v0, v1 = [p0.get(kk) for kk in ch[:3]], [p1.get(kk) for kk in ch[:3]]
             if what:
                 cause = culprit or first_self or ("?", [])
+                if what.startswith("rebuilt-map-after-failed-decode"):
+                    cause = first_self or ("failed decode", [])          # nothing of the history had been executed yet
                 switches = [c for c in cause[1] if c.startswith("internals.")]
                 key = "%s|%s" % (name, switches[0]) if switches else "%s|%s|%s" % (name, cause[0], ",".join(cause[1]) or "no-global-flag-change")
                 res["find"] = {"key": key,
@@ -266,7 +331,8 @@ def sstr(i):
 def check(run):
     quick = run.tier == "quick"
     run.cov["rule"] = ("(cpu module/mode, block of 2-6 spec-derived instructions, history of 6-24 other spec-derived instructions decoded, "
-                       "executed on scratch maps and partly evaluated, 2 concrete states with boundary register values); each case in its own "
+                       "executed on scratch maps and partly evaluated, plus 2-7 truncated / refused byte strings (behind the ISA's prefix bytes where it has "
+                       "prefix specifications) with the block rebuilt right after up to 3 failed decodes, 2 concrete states with boundary register values); each case in its own "
                        "forked process; distinct by (module, seed); non-trivial when the history executed >= 3 instructions")
     run.static_part()
     import multiprocessing as mp
@@ -296,6 +362,8 @@ def check(run):
             continue
         run.count((r["name"], r["mode"], id(r)), nontrivial=r["nontrivial"])
         run.hist("cases_by_isa", "%s_m%d" % (r["name"], r["mode"]))
+        run.hist("failed_decodes_in_histories", r["name"], r.get("failed_decodes", 0))
+        run.hist("mid_history_rebuilds", r["name"], r.get("mid_rebuilds", 0))
         if r["find"]:
             f = r["find"]
             run.violation(f["key"], f["what"], f["replay"])
